@@ -28,7 +28,7 @@ def history(rnd, length):
            ("assign", "nest", ("list", [V("a"), ("list", [I(7), V("in2")])]), "[[int...]...]")]
     for _ in range(length):
         k = rnd.choice(["set", "set", "setvar", "op", "push", "len", "print", "printel", "alias", "clone", "join", "bump", "fresh", "same",
-                        "is", "eq", "nest_set", "nest_read", "remove", "reverse", "symidx"])
+                        "is", "eq", "nest_set", "nest_read", "remove", "reverse", "symidx", "clone_push_eq", "lit_from_elems", "nest_chain"])
         x = V(rnd.choice(live))
         y = V(rnd.choice(live))
         if k == "set":
@@ -60,6 +60,17 @@ def history(rnd, length):
             out.append(("print", ("is", x, y)))
         elif k == "eq":
             out.append(("print", B("==", x, y)))
+        elif k == "clone_push_eq":
+            # two lists that agree on the common prefix but differ in length
+            out += [("assign", "tq", ("mcall", x, "clone", []), "[int...]"), ("expr", ("mcall", V("tq"), "push", [arg(rnd)])),
+                    ("print", B("==", V("tq"), x)), ("print", B("==", x, V("tq"))), ("print", B("!=", V("tq"), x))]
+        elif k == "lit_from_elems":
+            # a list literal built from elements of other lists holds VALUES: later updates of the sources do not reach it
+            out += [("assign", "lq", ("list", [("index", x, 0), ("index", y, 1)]), "[int...]"), ("setindex", x, 0, arg(rnd)), ("setindex", y, 1, arg(rnd)),
+                    ("print", V("lq")), ("setindex", V("lq"), 0, I(77)), ("print", x)]
+        elif k == "nest_chain":
+            out += [("assign", "j0", I(rnd.randint(0, 1))), ("setindex", ("index", V("nest"), "j0"), 0, arg(rnd)), ("print", ("index", ("index", V("nest"), 1), 0)),
+                    ("opindex", ("index", V("nest"), 1), 0, "+", arg(rnd))]
         elif k == "nest_set":
             out.append(("setindex", ("index", V("nest"), rnd.randint(0, 1)), 1, arg(rnd)))
         elif k == "nest_read":
